@@ -8,7 +8,10 @@ RULE = ("(A) core.add_outgrads folded over random lists of dense contributions (
         "the result (which pre-existing buffer, or a new one) compared with the heap model, all buffers checked unchanged; "
         "(B) programs (fan-out, diamonds, indexing, reductions, containers) with every input, constant and cotangent "
         "read-only, the VJP/JVP function called 7 times in shuffled order, compared with fresh single calls and with "
-        "snapshots of earlier results; distinct by (buffers, contributions) / (program, input)")
+        "snapshots of earlier results; (C) random polynomial DAGs over arrays (add/mul/powers, random sharing and "
+        "association order): backward accumulation checked against forward mode by the exact adjoint identity; (D) "
+        "container arguments receiving dense (+, constructors) and indexed contributions in random order, read-only "
+        "cotangent leaves; distinct by (buffers, contributions) / (program, input)")
 TRUST = ["object identity on the implementation is observed with `is`; read-only arrays turn an illegal write into an exception"]
 ASSUMPTIONS = ["rule contract: a derivative rule does not write its arguments (validated for built-in rules by the read-only runs)"]
 IMPORTS = ("From Coq Require Import List ZArith.\nImport ListNotations.\n"
@@ -25,7 +28,8 @@ def term(c):
 
 
 def explore(res, tag, seed, n, n_progs):
-    out, err = C.run_impl("impl_c10.py", {"seed": seed, "n": n, "n_progs": n_progs})
+    out, err = C.run_impl("impl_c10.py", {"seed": seed, "n": n, "n_progs": n_progs, "n_dags": n_progs * 6,
+                                          "n_cont": n_progs * 3})
     if out is None:
         return [], [], err
     for k, v in out["dist"].items():
